@@ -219,6 +219,11 @@ def history_rules(R):
     if not okf:
         R.viol("C13.history.flag", "inconsistent-not-flagged", "a quote failing historical_verify against the kept quote is not flagged (record_node_issue) or is stored anyway", vp, vp.lines[0])
     R.inst("C13.history.flag", "K5 must-follow", "kept.historical_verify(incoming) false ⇒ BadQuoting recorded, incoming not stored", len(hvs), okf)
+    # every quote of a QuoteVerification batch is judged against its peer's history (an already-bad peer is skipped, the rest of the
+    # batch is not)
+    hlc = R.body("C13.history.batch", "ant_networking::cmd::<impl ant_networking::driver::SwarmDriver>::handle_local_cmd")
+    if hlc is not None:
+        R.loop_exhaustive("C13.history.batch", hlc, CallSink(VPQ), "every quote of a QuoteVerification batch reaches verify_peer_quote (no early exit from the batch loop)", "the batch's quotes")
 
 
 def expiry_rules(R, pfx="C13"):
